@@ -104,6 +104,18 @@ def run_drive(ctx, exe, cfg, tag, race):
     rc, o = C.sh(cmd, env=env, timeout=3600)
     ctx.log.append({"step": " ".join(["racedrive" + ("-race" if race else "")] + cmd[1:-2]), "rc": rc,
                     "wall_s": round(time.time() - t0, 2), "out": o[-800:]})
+    if rc != 0 and "fatal error:" in o:
+        # the Go runtime killed the driver (concurrent map read/write, unrecoverable corruption): that IS a failing run of
+        # the concurrent calls, not a failure of the machinery
+        m = re.search(r"fatal error: ([^\n]*)", o)
+        frames = [l.strip() for l in o.split("\n") if "/libvore/" in l][:6]
+        rep = dict(seed=cfg["seed"], gomaxprocs=cfg["procs"], batches_per_setting=cfg["batches"], goroutines=cfg["goroutines"],
+                   iterations_per_goroutine=cfg["iters"], mode=cfg.get("mode", "mix"), num_cpu=os.cpu_count(), batches=0,
+                   sequential_reference_stable=True, diffs=[], operations=0, operations_by_kind={}, distinct_calls_compared=0,
+                   samples=[], programs=0, programs_with_groups=0, programs_that_compile=0, texts=0, run_results_with_matches=0,
+                   differing_results=1, wall_s=0.0,
+                   runtime_abort=dict(message=m.group(1) if m else "fatal error", frames=frames, output_tail=o[-2500:]))
+        return rep, []
     if rc != 0 or not os.path.exists(out):
         raise RuntimeError(f"racedrive ({tag}) failed rc={rc}: {o[-500:]}")
     rep = json.load(open(out))
@@ -186,6 +198,16 @@ def run_c19(ctx, spec):
                           "sequential reference is not a function of the call", dict(calls=rep.get("sequential_reference_unstable", [])[:5],
                                                                                     config=conf), found_input=False,
                           key="seq-unstable")
+        if rep.get("runtime_abort"):
+            ab = rep["runtime_abort"]
+            found = True
+            ctx.violation("failing-input", "the Go runtime aborted the process during concurrent calls: fatal error: " + ab["message"] +
+                          (" (" + ab["frames"][0] + ")" if ab["frames"] else ""),
+                          dict(config=conf, runtime_message=ab["message"], frames=ab["frames"], output=ab["output_tail"],
+                               broken_theorems=(theorem_break or {}).get("problems"),
+                               note="scheduler dependent: `./check C19 --replay <this file>` re-runs the same configuration up to 5 times"),
+                          key=key_of("abort", ab["message"]))
+            continue
         diffs += [(conf, rep, d) for d in rep["diffs"]]
         for r in races:
             (lib_races if any(in_libvore(f) for a in r["accesses"] for f in a["frames"]) else harness_races).append((conf, r))
